@@ -337,7 +337,12 @@ impl Sim {
     hit
   }
 
-  fn serve(&self, method: &str, params: &[Value]) -> Result<Result<Value, RpcError>, jsonrpc::Error> {
+  fn serve(
+    &self,
+    method: &str,
+    params: &[Value],
+    wallet: Option<&str>,
+  ) -> Result<Result<Value, RpcError>, jsonrpc::Error> {
     let mut s = self.lock();
     let client = Self::client_kind(&s);
     let nth = match client {
@@ -373,7 +378,7 @@ impl Sim {
         )))),
       };
     }
-    let result = s.world.rpc(method, params);
+    let result = s.world.rpc_wallet(wallet, method, params);
     let digest = match &result {
       Ok(v) => fnv(0xcbf29ce484222325, v.to_string().as_bytes()),
       Err(e) => e.code as u64,
@@ -389,7 +394,7 @@ impl Sim {
 
 // ------------------------------------------------------------------ transport
 
-struct SimTransport(Arc<Sim>);
+struct SimTransport(Arc<Sim>, Option<String>);
 
 impl jsonrpc::Transport for SimTransport {
   fn send_request(&self, request: jsonrpc::Request) -> Result<jsonrpc::Response, jsonrpc::Error> {
@@ -397,7 +402,7 @@ impl jsonrpc::Transport for SimTransport {
       Some(raw) => serde_json::from_str(raw.get()).unwrap_or_default(),
       None => Vec::new(),
     };
-    let result = self.0.serve(request.method, &params)?;
+    let result = self.0.serve(request.method, &params, self.1.as_deref())?;
     Ok(match result {
       Ok(value) => jsonrpc::Response {
         result: Some(serde_json::value::to_raw_value(&value).unwrap()),
@@ -458,8 +463,13 @@ impl ord::verif::Hooks for SimHooks {
         s.t_alive = true;
       }
     }
+    let wallet = url
+      .split("/wallet/")
+      .nth(1)
+      .map(|w| w.trim_end_matches('/').to_string())
+      .filter(|w| !w.is_empty());
     Some(Ok(bitcoincore_rpc::Client::from_jsonrpc(
-      jsonrpc::Client::with_transport(SimTransport(sim.clone())),
+      jsonrpc::Client::with_transport(SimTransport(sim.clone(), wallet)),
     )))
   }
 
